@@ -6,64 +6,32 @@ import re
 from typing import Any
 
 from .. import tplq
-from ..astutil import cfg_of, norm, short, where
-from ..cfg import CFG
+from ..astutil import Locals, anon, call_name, error_names, local_names, norm, region, returns_error, short, where
+from ..cfg import walk_own
 from ..core import PKG, Report
 from ..domain import is_esc
-from .registries import REGISTRIES, _membership_tests, _registry_stores
-from .siblings import enum_builder_parity, enum_merge_parity
+from .siblings import Path as SimPath
+from .siblings import PathSim, _class_names, _strip, enum_builder_parity, enum_merge_parity, inline_tail_calls
 
 LEVEL = ("structural clauses: semantic facts of each enum builder and of each enum merge function, checked per sibling by simulating "
          "its control flow under scenarios (null extraction by identity, only-null -> NoneProperty, single supported value type, null "
          "member -> nullable union, members from the null-free list, a taken class name reused only by the same class with the same "
          "member table, default converted before registration; subset merge in both directions, value-type compatibility); "
-         "member-name stores dominated by a duplicate test on the same key; closed decode (enum construct calls the class, the "
+         "every store of a member name (paths of values_from_list simulated for int / str members x duplicate found / not) is preceded by a "
+         "duplicate test on the very key that is stored or names an integer member injectively, a found duplicate ends in a "
+         "diagnostic; closed decode (enum construct calls the class, the "
          "literal check function tests membership and its fall-through raises, const construct compares and raises), encode is "
          ".value / identity; member values reach the class through a string context with a single escaping (label analysis of the "
          "emission site), Literal members through repr only.")
 
 
 def run(rep: Report, ctx: Any) -> str:
-    ix = ctx.py
     jx = ctx.jinja
     enum_builder_parity(rep, ctx, "R14.1")
     enum_merge_parity(rep, ctx, "R14.1m")
 
     # ---- R14.2 member names unique or reported ---------------------------------------------------------------------
-    rep.rule("R14.2", "in values_from_list every member-name store is dominated by a duplicate test, and the tested key is the "
-                      "stored key")
-    f = ix.func("EnumProperty.values_from_list")
-    cfg = CFG(f.node)
-    # the member table (any spelling) is the local dict the function returns
-    from ..astutil import anon, local_names
-    from .registries import FROZEN, local_registries, registry_label
-
-    locs = local_registries(f)
-    returned = {norm(r.value) for r in ast.walk(f.node) if isinstance(r, ast.Return) and r.value is not None} & set(locs)
-    rep.require(len(returned) == 1, "the returned member table of values_from_list")
-    table = next(iter(returned))
-    stores = [s for s in _registry_stores(f, {table})]
-    tests = _membership_tests(f, table)
-    rep.floor("member_stores", len(stores), 3)
-    lnames = local_names(f.node)
-
-    for st, reg, key, kind in stores:
-        ckey = f"{short(f)}::{registry_label(reg, locs)}[{anon(key, lnames)}]"
-        if ckey in FROZEN:
-            rep.ok("R14.2", ckey, "frozen", FROZEN[ckey], nontrivial=False)
-            continue
-        dom = [t for t, k in tests if cfg.is_dominated_by(st, lambda n, t=t: n is t)]
-        rep.check(bool(dom), "R14.2", ckey + "::dominated", "a member name is stored on a path that skips the duplicate test",
-                  where(f, st), lhs=norm(st)[:70], rhs="dominated by `if <key> in output`")
-        same = [k for t, k in tests if k == norm(key)]
-        rep.check(bool(same), "R14.2", ckey + "::same-key",
-                  f"the duplicate test uses {sorted({k for _, k in tests})} but the store uses `{norm(key)}`: names that only "
-                  "coincide after sanitising are merged silently", where(f, st), lhs=sorted({k for _, k in tests}), rhs=norm(key))
-    # the duplicate test leads to a diagnostic (raise or error return)
-    for t, k in tests:
-        reach = cfg.reachable_from(t, avoid=lambda n: any(n is s for s, *_ in stores))
-        rep.check(any(isinstance(n, (ast.Raise,)) or (isinstance(n, ast.Return) and "Error" in norm(n)) for n in reach if isinstance(n, ast.stmt)),
-                  "R14.2", f"{short(f)}::duplicate-test-diagnosed", "a detected duplicate is not reported", where(f, t))
+    _member_names(rep, ctx)
 
     # ---- R14.3 closed decode -----------------------------------------------------------------------------------------
     rep.rule("R14.3", "decode is closed: Enum(value) / check_<name>(value) with membership test and raising fall-through / const "
@@ -78,26 +46,27 @@ def run(rep: Report, ctx: Any) -> str:
     rep.check(bool(re.fullmatch(r"\s*\{property\.class_info\.name\}\(\{source\}\)\s*", txt)), "R14.3", "enum_property::construct_function",
               "decoding an enum no longer calls the enum class on the wire value", where=f"{PKG}/templates/{et.name}", lhs=txt.strip(),
               rhs="<Class>(<source>)")
-    tr = "".join(f_.text for f_ in tplq.macro_frags(et, "transform") if f_.kind == "data")
-    sets = [expr for expr in (n for n in et.macros["transform"].find_all(__import__("jinja2").nodes.Assign))]
-    ok = any("'.value'" in norm_j(a.node) or ".value" in norm_j(a.node) for a in sets)
+    # every arm of transform (required / optional property) writes `<source>.value`, whether the text is held in a `set` variable
+    # (its canonical name is its definition), built in the output expression or written out in the template text
+    arms: dict[bool, list[str]] = {True: [], False: []}
+    for f_ in tplq.macro_frags(et, "transform"):
+        names = tplq.guard_atoms(f_)
+        for req in (True, False):
+            if "property.required" not in names or any(tplq.guard_holds(f_, e) for e in tplq.assignments(names) if e["property.required"] == req):
+                arms[req].append(f_.text)
+    ok = all(".value" in "".join(ts) for ts in arms.values())
     rep.check(ok, "R14.3", "enum_property::transform", "encoding an enum no longer uses `.value`", where=f"{PKG}/templates/{et.name}",
-              lhs=[norm_j(a.node) for a in sets][:2], rhs="source + '.value'")
+              lhs=[t.strip()[:60] for ts in arms.values() for t in ts if ".value" in t][:2], rhs="source + '.value'")
     cf2 = tplq.macro_frags(lt, "construct_function")
     txt2 = "".join(f_.text if f_.kind == "data" else "{" + f_.text + "}" for f_ in cf2)
     rep.check("check_{" in txt2 and "({source})" in txt2, "R14.3", "literal_enum_property::construct_function",
               "decoding a literal enum no longer goes through its check_ function", where=f"{PKG}/templates/{lt.name}", lhs=txt2.strip(),
               rhs="check_<name>(<source>)")
-    # the check function itself: membership test, return under it, raise as fall-through
-    data = "".join(f_.text if f_.kind == "data" else "X" for f_ in tplq.frags(le.tree.body))
-    m = re.search(r"def check_X\(value[^\n]*\n((?:\s+[^\n]*\n?)+)", data)
-    ok = False
-    if m:
-        body = m.group(1)
-        lines = [l.strip() for l in body.splitlines() if l.strip()]
-        ok = len(lines) >= 3 and lines[0].startswith("if value in ") and lines[1].startswith("return ") and lines[-1].startswith("raise ")
-    rep.check(ok, "R14.3", "literal_enum.py.jinja::check-function", "the literal-enum check function is not `if value in VALUES: return ...; raise`",
-              where=f"{PKG}/templates/{le.name}", lhs=(m.group(1).strip()[:120] if m else None), rhs="membership test, raising fall-through")
+    # the check function itself, read as the Python it is (template expressions stand for a name): on every path a value that is in
+    # the value set is returned and a value that is not ends in a raise - whatever the order of the two and the polarity of the test
+    ok, shown = _check_function_closed(le)
+    rep.check(ok, "R14.3", "literal_enum.py.jinja::check-function", "the literal-enum check function does not return exactly the values that "
+              "are in the value set and raise for the others", where=f"{PKG}/templates/{le.name}", lhs=shown, rhs="member -> returned, else raise")
     cons = tplq.macro_frags(ct, "construct")
     ctxt = "".join(f_.text if f_.kind == "data" else "{" + f_.text + "}" for f_ in cons)
     ok = "!= {property.value.python_code}" in ctxt and "raise ValueError" in ctxt
@@ -123,7 +92,7 @@ def run(rep: Report, ctx: Any) -> str:
                 rep.check(e.kind.endswith('STR1"') and any(is_esc(l) for l in e.labels), "R14.4", f"{e.template}::{e.expr}::context",
                           "string enum value is not emitted as escaped text inside a \"...\" literal",
                           where=f"{PKG}/templates/{e.template}:{e.line}", lhs=[e.kind, sorted(e.labels)], rhs='ESC in STR1"')
-    rep.floor("enum_value_emissions", n_v, 3)
+    rep.floor("enum_value_emissions", n_v, 2)
     # Literal[...] arguments and the members of the VALUES set are Python source: the only conversion that writes every str / int as
     # a Python literal denoting the same value is repr (`"%r"|format(x)`); str() leaves strings unquoted and tojson writes JSON text
     # (other escapes: characters outside the BMP become surrogate pairs, which a Python literal does not recombine)
@@ -139,9 +108,48 @@ def run(rep: Report, ctx: Any) -> str:
             rep.check(conv == ["format:%r"], "R14.4", f"{le.name}::{norm_j(c)}::python-literal",
                       "a member value reaches the generated Literal / VALUES set through a conversion that does not produce the Python "
                       f"literal of the value: {conv or 'none (str())'}", where=f"{PKG}/templates/{le.name}:{c.lineno}", lhs=conv, rhs=["format:%r"])
-    rep.floor("literal_value_outputs", n_lit, 2)
+    rep.floor("literal_value_outputs", n_lit, 1)
     rep.not_decided.append("behaviour of Enum(value) itself (CPython)")
     return LEVEL
+
+
+def _check_function_closed(le: Any) -> "tuple[bool, str | None]":
+    from jinja2 import nodes as jn
+
+    text = "".join(f_.text if f_.kind == "data" else (f_.node.value if isinstance(f_.node, jn.Const) and isinstance(f_.node.value, str) else "X")
+                   for f_ in tplq.frags(le.tree.body))
+    try:
+        tree = ast.parse(text)
+    except SyntaxError:
+        return False, "generated module does not parse with placeholders: " + text.strip()[:80]
+    fns = [n for n in tree.body if isinstance(n, ast.FunctionDef) and n.name.startswith("check_") and n.args.args]
+    if len(fns) != 1:
+        return False, f"{len(fns)} check_ functions"
+    fn = fns[0]
+    arg = fn.args.args[0].arg
+
+    def ends(member: bool) -> list[SimPath]:
+        def leaf(e: ast.expr, st: dict, sim: PathSim) -> "bool | None":
+            if isinstance(e, ast.Compare) and len(e.ops) == 1 and isinstance(e.ops[0], (ast.In, ast.NotIn)) and isinstance(e.left, ast.Name) and \
+                    e.left.id == arg:
+                return member == isinstance(e.ops[0], ast.In)
+            return None
+
+        return PathSim(fn, leaf).paths()
+
+    def returns_value(p: SimPath) -> bool:
+        if not isinstance(p.end, ast.Return) or p.end.value is None:
+            return False
+        v = PathSim(fn).resolve(p.end.value, p.end_state)
+        while isinstance(v, ast.Call) and call_name(v).rsplit(".", 1)[-1] == "cast" and len(v.args) == 2:
+            v = v.args[1]
+        return isinstance(v, ast.Name) and v.id == arg
+
+    tests = [n for n in ast.walk(fn) if isinstance(n, ast.Compare) and isinstance(n.ops[0], (ast.In, ast.NotIn)) and isinstance(n.left, ast.Name)
+             and n.left.id == arg]
+    yes, no = ends(True), ends(False)
+    ok = bool(tests) and bool(yes) and bool(no) and all(returns_value(p) for p in yes) and all(isinstance(p.end, ast.Raise) for p in no)
+    return ok, ast.unparse(fn)[:160]
 
 
 def norm_j(n: Any) -> str:
@@ -183,3 +191,255 @@ def _conversions(n: Any) -> list[str]:
             return out
         out.append(type(n).__name__)
         return out
+
+
+# =====================================================================================================================
+# R14.2: the member table of EnumProperty.values_from_list
+# =====================================================================================================================
+# Roles, never spellings: the *table* is the local that starts as an empty dict and is returned; a *store* puts a member into it
+# (`t[K] = V`, t.setdefault(K, V), t.update({K: V})); a *duplicate test* asks whether a key is in the table (`K in t`, t.get(K));
+# the function's decisions are simulated (PathSim) under two scenarios - the member is an int / is not - times the outcome of the
+# duplicate test, so that early `continue` versus `else`, merged or split stores, keys held in locals or written as conditional
+# expressions all read alike.
+
+def _parts(e: ast.expr) -> "list[Any] | None":
+    """a string-building expression as a sequence of constant texts and holes (the expressions converted with str()):
+    f-strings, `+` chains, "...%d" % x, "...{}".format(x); None: not of this kind"""
+    if isinstance(e, ast.Constant) and isinstance(e.value, str):
+        return [e.value]
+    if isinstance(e, ast.JoinedStr):
+        out: list[Any] = []
+        for v in e.values:
+            if isinstance(v, ast.Constant) and isinstance(v.value, str):
+                out.append(v.value)
+            elif isinstance(v, ast.FormattedValue) and v.format_spec is None and v.conversion in (-1, 115, 114):
+                out.append(v.value)
+            else:
+                return None
+        return out
+    if isinstance(e, ast.BinOp) and isinstance(e.op, ast.Add):
+        a, b = _parts(e.left), _parts(e.right)
+        return None if a is None or b is None else a + b
+    if isinstance(e, ast.Call) and call_name(e) in ("str", "repr") and len(e.args) == 1 and not e.keywords:
+        return [e.args[0]]
+    fmt = args = None
+    if isinstance(e, ast.BinOp) and isinstance(e.op, ast.Mod) and isinstance(e.left, ast.Constant) and isinstance(e.left.value, str):
+        fmt, args = re.split(r"%[dis]", e.left.value), (list(e.right.elts) if isinstance(e.right, ast.Tuple) else [e.right])
+        if "%" in "".join(fmt):
+            return None
+    elif isinstance(e, ast.Call) and isinstance(e.func, ast.Attribute) and e.func.attr == "format" and not e.keywords and \
+            isinstance(e.func.value, ast.Constant) and isinstance(e.func.value.value, str):
+        fmt, args = e.func.value.value.split("{}"), list(e.args)
+        if "{" in "".join(fmt) or "}" in "".join(fmt):
+            return None
+    if fmt is not None and args is not None and len(fmt) == len(args) + 1:
+        out = [fmt[0]]
+        for a_, t in zip(args, fmt[1:]):
+            out += [a_, t]
+        return out
+    return None
+
+
+def _int_name_form(e: ast.expr) -> "tuple[str, int, str, ast.expr] | None":
+    """(prefix, sign, suffix, x) when e builds the text  prefix + str(x) + suffix  or  prefix + str(-x) + suffix : an injective
+    function of the integer x"""
+    ps = _parts(e)
+    if ps is None:
+        return None
+    holes = [x for x in ps if not isinstance(x, str)]
+    if len(holes) != 1:
+        return None
+    k = next(i for i, x in enumerate(ps) if not isinstance(x, str))
+    h, sign = holes[0], 1
+    while isinstance(h, ast.UnaryOp) and isinstance(h.op, (ast.USub, ast.UAdd)):
+        sign, h = (-sign if isinstance(h.op, ast.USub) else sign), h.operand
+    return ("".join(ps[:k]), sign, "".join(ps[k + 1:]), h)
+
+
+def _names_disjoint(a: tuple[str, int, str], b: tuple[str, int, str]) -> bool:
+    """two injective name forms never give the same name to different integers"""
+    if a == b:
+        return True
+    (p1, _, s1), (p2, _, s2) = a, b
+    if not (p1.startswith(p2) or p2.startswith(p1)):
+        return True
+    if p1 == p2 or s1 or s2:
+        return False
+    rest = p1[len(p2):] or p2[len(p1):]
+    return re.fullmatch(r"-?\d*", rest) is None  # `rest + digits` is never the text of an integer
+
+
+def _member_names(rep: Report, ctx: Any) -> None:
+    rep.rule("R14.2", "in values_from_list every store of a member is, on every path, either preceded by a duplicate test on the very "
+                      "key that is stored, or stores an integer member under a name that is an injective function of the integer "
+                      "(constant text around str(x) or str(-x), forms pairwise disjoint); a duplicate that is found ends in a "
+                      "diagnostic before anything is stored")
+    ix = ctx.py
+    f = ix.func("EnumProperty.values_from_list")
+    fn = inline_tail_calls(ix, f)
+    lnames = local_names(fn)
+    lc = Locals(fn)
+    errs = error_names(fn)
+    helpers = {h.name: h for h in region(ix, f)[1:]}
+    empty = {nm for nm, ds in lc.defs.items() if any(k == "assign" and v is not None and norm(v) in ("{}", "dict()") for k, _, v in ds)}
+    returned = {r.value.id for r in ast.walk(fn) if isinstance(r, ast.Return) and isinstance(r.value, ast.Name)} & empty
+    rep.require(len(returned) == 1, "the returned member table of values_from_list")
+    table = next(iter(returned))
+
+    def is_table(e: ast.expr) -> bool:
+        e = _strip(e)
+        if isinstance(e, ast.Call) and isinstance(e.func, ast.Attribute) and e.func.attr == "keys" and not e.args:
+            e = e.func.value
+        return isinstance(e, ast.Name) and e.id == table
+
+    def stores_of(s: ast.AST) -> list[tuple[ast.expr, ast.expr]]:
+        out = []
+        for n in walk_own(s):
+            if isinstance(n, (ast.Assign, ast.AnnAssign)) and n.value is not None:
+                for t in (n.targets if isinstance(n, ast.Assign) else [n.target]):
+                    if isinstance(t, ast.Subscript) and is_table(t.value):
+                        out.append((t.slice, n.value))
+            elif isinstance(n, ast.Call) and isinstance(n.func, ast.Attribute) and is_table(n.func.value):
+                if n.func.attr == "setdefault" and len(n.args) == 2:
+                    out.append((n.args[0], n.args[1]))
+                elif n.func.attr == "update" and len(n.args) == 1 and isinstance(n.args[0], ast.Dict):
+                    out += [(k, v) for k, v in zip(n.args[0].keys, n.args[0].values) if k is not None]
+            elif isinstance(n, ast.AugAssign) and isinstance(n.op, ast.BitOr) and is_table(n.target) and isinstance(n.value, ast.Dict):
+                out += [(k, v) for k, v in zip(n.value.keys, n.value.values) if k is not None]
+        return out
+
+    def tests_of(e: ast.AST) -> list[ast.expr]:
+        """keys whose presence in the table the expression asks for"""
+        out = []
+        for n in ast.walk(e):
+            if isinstance(n, ast.Compare) and len(n.ops) == 1 and isinstance(n.ops[0], (ast.In, ast.NotIn)) and is_table(n.comparators[0]):
+                out.append(n.left)
+            elif isinstance(n, ast.Call) and isinstance(n.func, ast.Attribute) and n.func.attr == "get" and n.args and is_table(n.func.value):
+                out.append(n.args[0])
+        return out
+
+    def typed(e: ast.expr) -> "tuple[ast.expr, bool] | None":
+        """(x, True) for `x is an int`, (x, False) for `x is a str` (the members are one or the other)"""
+        if isinstance(e, ast.Call) and call_name(e) == "isinstance" and len(e.args) == 2:
+            kinds = set(_class_names(e.args[1]))
+            if kinds and kinds <= {"int", "bool"} and "int" in kinds:
+                return (e.args[0], True)
+            if kinds == {"str"}:
+                return (e.args[0], False)
+        if isinstance(e, ast.Compare) and len(e.ops) == 1 and isinstance(e.ops[0], (ast.Is, ast.IsNot, ast.Eq, ast.NotEq)) and \
+                isinstance(e.left, ast.Call) and call_name(e.left) == "type" and len(e.left.args) == 1 and norm(e.comparators[0]) in ("int", "str"):
+            pos = isinstance(e.ops[0], (ast.Is, ast.Eq))
+            return (e.left.args[0], (norm(e.comparators[0]) == "int") == pos)
+        return None
+
+    def rtext(e: ast.AST, st: dict, depth: int = 0) -> str:
+        """the expression with its locals replaced by what they are bound to on this path"""
+        import copy
+
+        class R(ast.NodeTransformer):
+            def visit_Name(self, n: ast.Name) -> ast.AST:
+                v = st.get(("v", n.id))
+                if isinstance(n.ctx, ast.Load) and v is not None and depth < 4 and not (isinstance(v, ast.Name) and v.id == n.id):
+                    return ast.parse(rtext(v, st, depth + 1), mode="eval").body
+                return n
+
+        return norm(R().visit(copy.deepcopy(e)))
+
+    def forms(e: ast.expr, st: dict, sim: PathSim, depth: int = 0) -> list[ast.expr]:
+        """the expressions a key can stand for on this path: locals resolved, both arms of an undecided conditional expression,
+        the returned expressions of a private helper without locals of its own (parameters replaced by the arguments)"""
+        e = sim.resolve(e, st)
+        if isinstance(e, ast.IfExp):
+            return forms(e.body, st, sim, depth) + forms(e.orelse, st, sim, depth)
+        if isinstance(e, ast.Call) and depth < 2 and not e.keywords:
+            h = helpers.get(call_name(e).rsplit(".", 1)[-1])
+            if h is not None and not local_names(h.node) and not h.node.args.vararg and not h.node.args.kwarg:
+                ps = [p.arg for p in h.params if p.arg not in ("self", "cls")]
+                rets = [r.value for r in ast.walk(h.node) if isinstance(r, ast.Return) and r.value is not None]
+                if len(ps) == len(e.args) and rets:
+                    import copy
+
+                    class S(ast.NodeTransformer):
+                        def visit_Name(self, n: ast.Name) -> ast.AST:
+                            return copy.deepcopy(e.args[ps.index(n.id)]) if n.id in ps else n  # type: ignore[union-attr]
+
+                    return [x for r in rets for x in forms(S().visit(copy.deepcopy(r)), st, sim, depth + 1)]
+        return [e]
+
+    # per store statement: what happened on the paths that reach it
+    seen: dict[int, dict[str, Any]] = {}
+    int_forms: dict[tuple[str, int, str], ast.AST] = {}
+    undiagnosed: list[ast.AST] = []
+    n_tests = 0
+    roles: set[tuple[int, bool]] = set()
+    for is_int in (True, False):
+        for dup in (False, True):
+            def leaf(e: ast.expr, st: dict, sim: PathSim, is_int: bool = is_int, dup: bool = dup) -> "bool | None":
+                t = typed(e)
+                if t is not None and names_of(t[0]) & lnames:
+                    return is_int == t[1]
+                if isinstance(e, ast.Compare) and len(e.ops) == 1 and isinstance(e.ops[0], (ast.In, ast.NotIn)) and is_table(e.comparators[0]):
+                    return dup == isinstance(e.ops[0], ast.In)
+                return None
+
+            def none_of(e: ast.expr, st: dict, sim: PathSim, dup: bool = dup) -> "bool | None":
+                if isinstance(e, ast.Call) and isinstance(e.func, ast.Attribute) and e.func.attr == "get" and len(e.args) == 1 and is_table(e.func.value):
+                    return not dup
+                return None
+
+            sim = PathSim(fn, leaf, none_of)
+            for p in sim.paths():
+                asked: list[tuple[ast.expr, dict]] = []     # duplicate tests evaluated so far: (key, state)
+                ints: set[str] = set()                       # what has been tested to be an int on this path
+                for ev in p.events:
+                    for n in ast.walk(ev.node):
+                        t = typed(n) if isinstance(n, ast.expr) else None
+                        if t is not None and is_int:
+                            ints.add(rtext(t[0], ev.state))   # whatever is asked for its type on this path is the (integer) member
+                    if ev.kind == "stmt":
+                        for key, val in stores_of(ev.node):
+                            d = seen.setdefault(id(ev.node), {"node": ev.node, "key": key, "int": [], "str": []})
+                            roles.add((id(ev.node), is_int))
+                            same = any(rtext(k, st_) == rtext(key, ev.state) for k, st_ in asked)
+                            inj = False
+                            if is_int:
+                                fs = [_int_name_form(x) for x in forms(key, ev.state, sim)]
+                                inj = bool(fs) and all(x is not None and rtext(x[3], ev.state) in ints for x in fs) and rtext(val, ev.state) in ints
+                                if inj:
+                                    for x in fs:
+                                        int_forms.setdefault(x[:3], ev.node)  # type: ignore[index]
+                            d["int" if is_int else "str"].append((inj, bool(asked), same))
+                            if dup and asked:
+                                undiagnosed.append(ev.node)   # stored although a duplicate was found
+                    asked += [(k, ev.state) for k in tests_of(ev.node)]
+                if asked:
+                    n_tests += 1
+                    if dup and not (isinstance(p.end, ast.Raise) or (p.end is not None and returns_error(p.end, errs))):
+                        undiagnosed.append(p.end if p.end is not None else fn)
+    rep.floor("member_stores", len(roles), 1)
+    rep.require(any(d["str"] for d in seen.values()), "a store of a string member into the member table of values_from_list")
+    rep.require(n_tests, "a duplicate test on the member table of values_from_list")
+    for d in seen.values():
+        ckey = f"{short(f)}::<local dict>[{anon(d['key'], lnames)}]"
+        if d["int"]:
+            bad = [x for x in d["int"] if not (x[0] or (x[1] and x[2]))]
+            rep.check(not bad, "R14.2", ckey + "::int-member",
+                      "an integer member is stored under a name that is neither an injective function of the integer nor checked for "
+                      "duplicates", where(f, d["node"]), lhs=norm(d["node"])[:70], rhs="prefix + str(+-x), or dominated by a duplicate test")
+        if d["str"]:
+            rep.check(all(x[1] for x in d["str"]), "R14.2", ckey + "::dominated", "a member name is stored on a path that skips the duplicate test",
+                      where(f, d["node"]), lhs=norm(d["node"])[:70], rhs="dominated by `if <key> in output`")
+            rep.check(all(x[2] for x in d["str"] if x[1]), "R14.2", ckey + "::same-key",
+                      f"the duplicate test does not ask for the key that is stored (`{norm(d['key'])}`): names that only coincide after "
+                      "sanitising are merged silently", where(f, d["node"]), lhs=norm(d["key"]), rhs="the tested key")
+    fl = sorted(int_forms)
+    clash = [(a, b) for i_, a in enumerate(fl) for b in fl[i_ + 1:] if not _names_disjoint(a, b)]
+    rep.check(not clash, "R14.2", f"{short(f)}::int-names-disjoint", "two naming schemes of integer members can give the same name to different "
+              f"integers: {clash[:1]}", where(f, fn), lhs=[x[0] for x in fl], rhs="pairwise disjoint")
+    rep.check(not undiagnosed, "R14.2", f"{short(f)}::duplicate-test-diagnosed", "a detected duplicate is not reported (the path goes on to "
+              "store the member, or ends without a diagnostic)", where(f, undiagnosed[0] if undiagnosed else fn),
+              lhs=[norm(x)[:60] for x in undiagnosed[:2]], rhs="raise / error return")
+
+
+def names_of(e: ast.AST) -> set[str]:
+    return {n.id for n in ast.walk(e) if isinstance(n, ast.Name)}
